@@ -398,14 +398,14 @@ fn run_single(exe: &str, wrapper: &[String], seed: u64, tier: Tier, mode: &str, 
 fn drive(ctx: &Ctx, exe: &str, wrapper: &[String], mode: &str, workers: u64, wall_cap: Duration) -> Outcome {
     let merged = Arc::new(Mutex::new(Stats::default()));
     let t_start = Instant::now();
-    let _ = std::fs::create_dir_all("/verif/work");
+    let _ = std::fs::create_dir_all(format!("{}/work", out_dir()));
     std::thread::scope(|s| {
         for shard in 0..workers {
             let merged = merged.clone();
             let wrapper = wrapper.to_vec();
             s.spawn(move || {
                 let mut st = Stats::default();
-                let stderr_path = format!("/verif/work/c01-{mode}-{}-{shard}.stderr", std::process::id());
+                let stderr_path = format!("{}/work/c01-{mode}-{}-{shard}.stderr", out_dir(), std::process::id());
                 let _ = std::fs::remove_file(&stderr_path);
                 let mut from: Option<(String, u64)> = None;
                 let mut restarts = 0;
